@@ -529,7 +529,7 @@ def correspondence(r, cases, dist):
                 bad += 1
                 if bad <= 3:
                     r.broken('correspondence', f"{case['kind']} case disagrees with Model/StateDiff.v",
-                             msg + "\ncase: " + key[:2500])
+                             "case: " + key[:1000] + (" ..." if len(key) > 1000 else "") + "\n" + msg)
     return bad
 
 
